@@ -97,3 +97,10 @@ check(
     "Trusts vf/ref/stats.py for Hs and the independent cos^2s evaluation for the aliasing bound; under-resolved cases (bound > 0.05 deg) only checked for normalisation, as designed.",
     "DESIGN.md section 5 C15",
 )
+check(
+    "C17",
+    "Hypothesis-generated sequences of public operations on numpy-backed, dask-backed and view-backed arguments with a deep before/after snapshot of every argument object (data bytes, coords, index order, attrs, encoding, dask graph identity, parent buffer of views, keyword dictionaries and query lists)",
+    "Hundreds (quick) / tens of thousands (thorough) of call sequences over ~55 accessor operations (array and Dataset accessors), three selection methods under both longitude conventions, construction helpers, five model-native readers, six writers and calls that raise. Exploration over programs of length 1-3.",
+    "Trusts the snapshot to be complete for the argument kinds used (xarray objects, numpy arrays, lists, dicts); netCDF writers exercised through the scipy NETCDF3 backend only.",
+    "DESIGN.md section 5 C17",
+)
